@@ -77,7 +77,13 @@ func (c *Channel) read() {
 				"encountered error reading from transport during channel read loop. error: %s", err,
 			)
 
-			c.Errs <- err
+			// hand the error to whichever operation reads next; a close may arrive instead, in which case
+			// there is nobody left to tell.
+			select {
+			case c.Errs <- err:
+			case <-c.done:
+				return
+			}
 
 			time.Sleep(c.ReadDelay)
 
